@@ -8,9 +8,9 @@ import functools
 import itertools
 
 KINDS = ("matrix", "expr", "expr_table", "nary_expr", "func_pos", "func_kwargs", "func_partial", "unary_func",
-         "unary_expr", "unary_bool", "zeroary", "neutral", "conditional", "nary_expr_renamed", "func_pos_named")
+         "unary_expr", "unary_bool", "zeroary", "neutral", "conditional", "nary_expr_renamed", "func_pos_named", "func_named_kwargs", "func_kwonly")
 
-_POOL = ["x", "y", "z", "w", "aa", "bb", "v1", "v2", "v10", "k", "m", "n1", "q", "t"]
+_POOL = ["x", "y", "z", "w", "aa", "bb", "v1", "v2", "v10", "k", "m", "n1", "q", "t", "T", "X", "Q"]
 
 
 def draw_vars(rng, n, max_dom=3):
@@ -72,7 +72,7 @@ def gen_spec(rng, kind=None, nvars=None, mag="small", max_dom=3, name="r0"):
         nvars = rng.randint(1, 4) if kind not in ("conditional",) else rng.randint(2, 4)
     vars_ = draw_vars(rng, nvars, max_dom)
     spec["vars"] = vars_
-    if kind in ("matrix", "expr_table", "func_pos", "func_kwargs", "func_partial", "unary_func", "func_pos_named"):
+    if kind in ("matrix", "expr_table", "func_pos", "func_kwargs", "func_partial", "unary_func", "func_pos_named", "func_named_kwargs", "func_kwonly"):
         spec["table"] = {key_of(vars_, a): draw_value(rng, mag) for a in all_assignments(vars_)}
         if kind == "func_partial":
             spec["extra"] = rng.randint(1, 5)
@@ -230,6 +230,19 @@ def build_relation(spec, cache=None):
             def f(p0, p1, p2, p3):
                 return look({names[0]: p0, names[1]: p1, names[2]: p2, names[3]: p3})
         return R.NAryFunctionRelation(f, vs, name=name), cache
+    if kind in ("func_named_kwargs", "func_kwonly"):
+        # python functions called BY NAME: a plain function given with f_kwargs=True, or a function with keyword-only
+        # parameters; the parameters are the variable names, declared in another order than the variable list
+        look = table_fn(spec["table"], spec["vars"])
+        params = sorted(names, reverse=True)
+        if params == names:
+            params = sorted(names)
+        body = "_look({%s})" % ", ".join("%r: %s" % (n, n) for n in names)
+        if kind == "func_kwonly":
+            f = eval("lambda *, %s: %s" % (", ".join(params), body), {"_look": look})
+            return R.NAryFunctionRelation(f, vs, name=name), cache
+        f = eval("lambda %s: %s" % (", ".join(params), body), {"_look": look})
+        return R.NAryFunctionRelation(f, vs, name=name, f_kwargs=True), cache
     if kind == "func_pos_named":
         look = table_fn(spec["table"], spec["vars"])
         params = spec["params"]
